@@ -78,6 +78,10 @@ pub enum Call {
     /// remove entries prefixed by the id whose timestamp is <= T0 + threshold
     RemovePrefix(IdGen, u8),
     Put(EGen),
+    /// remove the document from the redb store and import it again; the ordered map is cleared
+    RemoveAndRecreate,
+    /// flush; file stores are dropped and opened again
+    FlushOrReopen,
 }
 
 #[derive(Serialize, Deserialize, Clone, Debug)]
@@ -114,6 +118,8 @@ fn call() -> impl Strategy<Value = Call> {
         3 => idgen().prop_map(Call::PrefixesOf),
         2 => (idgen(), 0u8..8).prop_map(|(x, t)| Call::RemovePrefix(x, t)),
         2 => egen().prop_map(Call::Put),
+        1 => Just(Call::RemoveAndRecreate),
+        1 => Just(Call::FlushOrReopen),
     ]
 }
 
@@ -416,6 +422,18 @@ fn primitives(ctx: &mut Ctx, file: bool, pools: &Pools, entries: &[EGen], calls:
                 if got != want {
                     o.fail("C08/put", format!("call {i}: put {}: redb {:?}, ordered map {:?}", describe(&e), got, want));
                     break;
+                }
+            }
+            Call::RemoveAndRecreate => {
+                es(st.store.remove_replica(&ns))?;
+                es(st.store.import_namespace(nssec.clone().into()))?;
+                bt = Adapter(Bt::default());
+                o.class("primitives/document-removed-and-re-created");
+            }
+            Call::FlushOrReopen => {
+                es(st.store.flush())?;
+                if file {
+                    st = st.reopen()?;
                 }
             }
         }
